@@ -10,11 +10,20 @@ Definition run_C02 (op : Z) (args : list val) : val :=
       | Some t, Some w =>
           let txid := vres VBytes (get_txid sha256d t) in
           let wtxid := vres VBytes (get_hash sha256d t) in
-          VList [VList [txid; wtxid; txid; wtxid; vres VBytes (get_txid sha256d (set_wit t w)); VInt 1; VInt 1];
+          let bump (v : Z) := (v + 1) mod 2^32 in
+          let t1 := {| tx_version := tx_version t; tx_vin := tx_vin t; tx_vout := tx_vout t; tx_wit := tx_wit t; tx_lock := bump (tx_lock t) |} in
+          let t2 := {| tx_version := tx_version t1;
+                       tx_vin := match tx_vin t1 with
+                                 | x :: r => {| ti_prevout := ti_prevout x; ti_script := ti_script x; ti_seq := bump (ti_seq x) |} :: r
+                                 | [] => [] end;
+                       tx_vout := tx_vout t1; tx_wit := tx_wit t1; tx_lock := tx_lock t1 |} in
+          VList [VList [txid; wtxid; txid; wtxid; vres VBytes (get_txid sha256d (set_wit t w)); VInt 1; VInt 1;
+                        vres VBytes (get_txid sha256d t1); vres VBytes (get_hash sha256d t1); vres VBytes (get_txid sha256d t2)];
                  if wf_txb MAX_SIZE t && wf_txb MAX_SIZE (set_wit t w) then
                    let s_txid := VBytes (sha256d (wire_tx_stripped t)) in
                    let s_wtxid := VBytes (sha256d (wire_tx t)) in
-                   judge impl (VList [s_txid; s_wtxid; s_txid; s_wtxid; s_txid; VInt 1; VInt 1])
+                   judge impl (VList [s_txid; s_wtxid; s_txid; s_wtxid; s_txid; VInt 1; VInt 1;
+                                      VBytes (sha256d (wire_tx_stripped t1)); VBytes (sha256d (wire_tx t1)); VBytes (sha256d (wire_tx_stripped t2))])
                  else unconstrained;
                  vbool (has_witness t)]
       | _, _ => bad_args end
